@@ -150,6 +150,17 @@ def run(ck):
         p = os.path.join(d, "str%d.c" % i)
         open(p, "w").write("\n".join(lines) + "\n")
         inputs.append((p, ["-t", rng.choice(progrun.TARGETS)[0]]))
+    # several input files in one invocation (the scanner chain: state of a freshly opened scanner)
+    multi = set()
+    for i in range(4 if ck.quick else 30):
+        a = os.path.join(d, "mf%da.c" % i)
+        b = os.path.join(d, "mf%db.c" % i)
+        open(a, "w").write("int mfa%d = %d;%s" % (i, i, rng.choice(["\n", "", " ", "\n\n", "/* c */"])))
+        open(b, "w").write("%sint mfb%d = %d;\n#define M%d (mfb%d + 1)\nint mfc%d(void) { return M%d; }\n"
+                           % (rng.choice(["", " ", "\n", "\t"]), i, i, i, i, i, i))
+        for fl in (["-E"], [], ["-t", "aarch64", "-E"]):
+            inputs.append((b, fl + [a]))
+            multi.add((b, tuple(fl + [a])))
     base_env = {"PATH": os.environ.get("PATH", "/usr/bin:/bin")}
     msan = build_msan(ck)
     setarch = shutil.which("setarch")
@@ -176,11 +187,12 @@ def run(ck):
         for name, env, cwd, noaslr in perturbations:
             cmd = ([setarch, "x86_64", "-R"] if noaslr else []) + [cc] + flags + [path]
             res.append((name, run_one(cmd, env=env, cwd=cwd)))
-        data = open(path, "rb").read()
-        r = run_one([cc] + flags, stdin=data, env=base_env)
-        res.append(("stdin-vs-path", (r[0], r[1], b"")))
-        outp = os.path.join(d, "%s.%s.out" % (common.sha(path)[:8], os.path.basename(path)))   # never inside /repo
-        r = run_one([cc] + flags + ["-o", outp, path], env=base_env)
+        if (item[0], tuple(flags)) not in multi:
+            data = open(path, "rb").read()
+            r = run_one([cc] + flags, stdin=data, env=base_env)
+            res.append(("stdin-vs-path", (r[0], r[1], b"")))
+        outp = os.path.join(d, "%s.%s.out" % (common.sha(path, " ".join(flags))[:10], os.path.basename(path)))   # never inside /repo
+        r = run_one([cc, "-o", outp] + flags + [path], env=base_env)      # options precede the file operands
         body = open(outp, "rb").read() if os.path.exists(outp) else b""
         res.append(("-o-vs-stdout", (r[0], body if r[0] == 0 else ref[1], b"")))
         if msan:
